@@ -71,9 +71,14 @@ def job_disjoint(args):
 
 
 def _work(args):
-    if args[0] == 'subset':
-        return job_subset(args)
-    return job_disjoint(args)
+    from pyvc.core import OutOfSubset
+    try:
+        if args[0] == 'subset':
+            return job_subset(args)
+        return job_disjoint(args)
+    except OutOfSubset as e:
+        nm = ('%s/%s' % (args[1], args[3])) if args[0] == 'subset' else 'disjoint/%s/%s' % (args[1], args[2])
+        return dict(name=nm, kind='language', verdict='unknown', witness=None, time=0.0, args=args, detail='pattern outside the translated subset: %s' % e)
 
 
 # ---------------------------------------------------------------------------- classifiers
@@ -271,7 +276,7 @@ def main(tier, seed):
             else:
                 run.spurious_model(r['name'], rep)
         else:
-            run.record(r['name'], r['kind'], 'unknown', 'z3-regex', r['time'], 'codes', 'solver unknown')
+            run.record(r['name'], r['kind'], 'unknown', 'z3-regex', r['time'], 'codes', r.get('detail', 'solver unknown'))
     run.sample(dict(obligation='PAT_EVENT_CODE/whole<=parts', form='(assert (str.in_re x (re.inter L(PAT_EVENT_CODE) (re.comp (re.union L(family_i)...))))) ; unsat',
                     families=FAMILIES))
     for label, chain in chains:
